@@ -123,4 +123,6 @@ LEVEL_TEXT["C18"] = _lt("proof",
 for pid in ["C10", "C11", "C12"]:
     LEVEL_TEXT[pid] = _lt("exploration", _PENDING, _NOTE, "differential testing of the implementation against an executable Lean Spec and model (proofs pending)")
 for pid in ["C03", "C04", "C05"]:
+    LEVEL_TEXT[pid] = _lt("exploration", _PENDING, _NOTE, "differential testing of the implementation against an executable Lean Spec and model (proofs pending)")
+for pid in []:
     NOT_CLAIMED[pid] = "check under construction (Spec and theorems for this property are not merged yet); see DESIGN.md section 7"
